@@ -24,6 +24,11 @@ CLAIMS = {
             "Decides that nothing but DeepCopy results enters or leaves the store and the read cache, that every in-place write of the "
             "copy-on-write metadata containers targets storage created in the same call, that the module's DeepCopy implementations copy "
             "their mutable parts, and that raw maps are never written. DeepCopy of user spec types is the user's obligation.", "§3 C19"),
+    "C03": ("path-cut + lockset on the store's Destroy/Watch, decision-table cuts on the blocking helpers, value provenance of the ready flag",
+            "Decides that removal is gated by an empty finalizer set inside the collection's critical section, that a plain watch captures "
+            "and sends the current state atomically with its start position (the mechanism behind 'no missed wake-up'), the event decision "
+            "tables of waitFinalizersEmpty / ContextWithTeardown, the control shape of TeardownAndDestroy and that Teardown's ready flag "
+            "comes from the committed update. Liveness ('always completes') is not decided.", "§3 C03"),
     "C04": ("path-cut on the retry loop + value provenance of the mutated copy + option-table checks",
             "Decides the mechanism that makes the helpers atomic: mutate a deep copy of the value just read, submit and return exactly "
             "it, retry only on a plain version conflict after re-reading, test the expected phase before anything else, never report an "
